@@ -420,4 +420,79 @@ Proof.
     + rewrite Hhd. now apply idx_lt.
 Qed.
 End Symm.
+
+(* the conjugating assembly (Model/OneBody.two_symm_integral_h), any coordinate types *)
+Section SymmH.
+Variable bs : list (shell F).
+Hypothesis C : seg_basis bs.
+Hypothesis HB : blocks_shaped blockf bs bs.
+Variable aconj : A -> A.
+
+Let n := length bs.
+Let P := fun i j => pb (nth i (map (prep K) bs) (dummy_p K)) (nth j (map (prep K) bs) (dummy_p K)).
+Let w := fun t => odim (sh_at K bs t).
+Let Bh := fun i j => if Nat.ltb i j then P i j else map (map aconj) (transpose azero (P j i)).
+
+Lemma mBh_shape i j : i < n -> j < n ->
+  length (Bh i j) = w i /\ Forall (fun row => length row = w j) (Bh i j).
+Proof.
+  intros Hi Hj. unfold Bh. destruct (Nat.ltb i j); [exact (proj1 (mP_spec bs HB i j Hi Hj))|]. fold (P j i).
+  destruct (mPt_shape bs C HB i j Hi Hj) as [HL HF]. fold (P j i) in HL, HF. fold w in HL, HF. split; [now rewrite map_length|].
+  apply Forall_forall. intros row Hr. apply in_map_iff in Hr. destruct Hr as [r0 [<- Hr0]].
+  rewrite map_length. rewrite Forall_forall in HF. now apply HF.
+Qed.
+
+Lemma msymm_h_is_blockmat :
+  two_symm_integral_h K azero aadd ascale aconj blockf bs None = two_asymm_blocks n n Bh.
+Proof.
+  unfold two_symm_integral_h. cbv zeta. rewrite map_length. fold n.
+  rewrite (two_symm_blocks_h_ext azero bs aconj n _ P).
+  - reflexivity.
+  - intros i j Hi Hj Hle. rewrite nth_mk by exact Hi. rewrite nth_mk by exact Hj.
+    destruct (Nat.leb_spec i j); [reflexivity|lia].
+Qed.
+
+Theorem two_symm_h_mixed_shape : 0 < n ->
+  length (two_symm_integral_h K azero aadd ascale aconj blockf bs None) = ototal K bs /\
+  forall I, I < ototal K bs ->
+    length (nth I (two_symm_integral_h K azero aadd ascale aconj blockf bs None) []) = ototal K bs.
+Proof.
+  intros Hn. rewrite msymm_h_is_blockmat. split.
+  - exact (blockmat_length n n Bh w w mBh_shape Hn).
+  - intros I HI. destruct (oidx_surj K bs I HI) as (i & m & q & Hi & Hm & Hq & ->).
+    unfold oidx, ooff. fold w.
+    exact (blockmat_row_length n n Bh w w mBh_shape Hn i _ Hi (idx_lt _ _ _ _ Hm Hq)).
+Qed.
+
+Theorem two_symm_h_mixed_entry i j m q m' q' :
+  i < n -> j < n ->
+  m < nseg (sh_at K bs i) -> q < osize (sh_at K bs i) -> m' < nseg (sh_at K bs j) -> q' < osize (sh_at K bs j) ->
+  nth (oidx K bs j m' q') (nth (oidx K bs i m q)
+      (two_symm_integral_h K azero aadd ascale aconj blockf bs None) []) (aconj azero)
+  = if Nat.ltb i j then Emix (sh_at K bs i) (sh_at K bs j) m q m' q'
+    else aconj (Emix (sh_at K bs j) (sh_at K bs i) m' q' m q).
+Proof.
+  intros Hi Hj Hm Hq Hm' Hq'. rewrite msymm_h_is_blockmat. unfold oidx, ooff. fold w.
+  rewrite (blockmat_entry n n Bh w w mBh_shape ltac:(lia) (aconj azero) i j _ _ Hi Hj
+             (idx_lt _ _ _ _ Hm Hq) (idx_lt _ _ _ _ Hm' Hq')).
+  unfold Bh. destruct (Nat.ltb i j).
+  - destruct (mP_spec bs HB i j Hi Hj) as [[HL HF] He]. fold (P i j) in HL, HF, He. fold w in HL, HF.
+    rewrite (nth_indep _ (aconj azero) azero).
+    + now apply He.
+    + rewrite (Forall_nth_in _ _ [] _ HF) by (rewrite HL; now apply idx_lt). now apply idx_lt.
+  - destruct (mPt_shape bs C HB i j Hi Hj) as [HL HF]. fold (P j i) in HL, HF. fold w in HL, HF.
+    rewrite (nth_map_d (map aconj) _ _ []) by (rewrite HL; now apply idx_lt).
+    rewrite (nth_map_d aconj _ _ azero)
+      by (rewrite (Forall_nth_in _ _ [] _ HF) by (rewrite HL; now apply idx_lt); now apply idx_lt).
+    f_equal.
+    destruct (mP_spec bs HB j i Hj Hi) as [[HL' HF'] He]. fold (P j i) in HL', HF', He. fold w in HL', HF'.
+    assert (Hhd : length (hd [] (P j i)) = w i).
+    { pose proof (mw_pos bs C j Hj) as Hpos. fold w in Hpos.
+      apply hd_length; [rewrite HL'; exact Hpos | exact HF']. }
+    rewrite transpose_entry.
+    + now apply He.
+    + rewrite HL'. now apply idx_lt.
+    + rewrite Hhd. now apply idx_lt.
+Qed.
+End SymmH.
 End MixedAssembled.
